@@ -509,6 +509,41 @@ def check_direct(images, effects):
     return look(d2, 'after write and reload')
 
 
+def shrink_direct(images, effects, sig):
+    """greedy: drop effects, then properties, then images, as long as the same kind of failure stays"""
+    def fails(im, ef):
+        try:
+            r = check_direct(im, ef)
+        except Exception:
+            return False
+        return r is not None and r[0] == sig
+    changed = True
+    while changed:
+        changed = False
+        for i in range(len(effects)):
+            cand = effects[:i] + effects[i + 1:]
+            if cand and fails(images, cand):
+                effects, changed = cand, True
+                break
+        if changed:
+            continue
+        for i, (eid, shader, props, bump) in enumerate(effects):
+            for j in range(len(props)):
+                cand = effects[:i] + [(eid, shader, props[:j] + props[j + 1:], bump)] + effects[i + 1:]
+                if fails(images, cand):
+                    effects, changed = cand, True
+                    break
+            if changed:
+                break
+        if changed:
+            continue
+        used = set(im for _, _, props, _ in effects for _, k, im in props if k == 'tex')
+        cand = [im for im in images if im in used]
+        if cand != images and cand and fails(cand, effects):
+            images, changed = cand, True
+    return images, effects
+
+
 def direct_observe(images, effects):
     """what the real loader built, in the words of drv/C07.lean `direct`: the effect's parameters in order and, per property naming an
     image, the position of its map's sampler among them (by object identity)"""
@@ -646,6 +681,9 @@ def run(ctx):
             res = check_direct(images, effects)
         except Exception as e:
             res = ('direct:check-raised:' + type(e).__name__, 'checking image-named textures raised %s: %s' % (type(e).__name__, str(e)[:150]))
+        if res is not None and res[0] not in reported:
+            images, effects = shrink_direct(images, effects, res[0])
+            res = check_direct(images, effects) or res
         report(res, dict(kind='direct', images=images, effects=effects))
         if res is None:
             try:
